@@ -399,6 +399,11 @@ class PyEngine:
         raise Unsupported(f'compare {type(op).__name__}')
 
     def identical(self, a, b):
+        hook = getattr(self.cur, 'identical', None)
+        if hook:
+            r = hook(self, a, b)
+            if r is not None:
+                return r
         if is_z3(a) and is_z3(b) and a.sort() == b.sort():
             return a == b
         if is_z3(a) and is_z3(b):
